@@ -534,3 +534,45 @@ func verifH_C04_conforming_variants() {
 	verifAssert(err == nil, "C04 conforming variants: a document that satisfies the rules is accepted")
 	verifReach("end")
 }
+
+//verif:harness id=C04 tier=quick,thorough witness=end bounds="examples are read in the direction of the place they stand in, whatever options are passed: a request body example carrying a read-only property, a response example carrying a write-only property, and the two harmless opposites (write-only in a request, read-only in a response) x every subset of {DisableExamplesValidation, DisableSchemaDefaultsValidation, DisableSchemaPatternValidation, EnableSchemaFormatValidation} incl. the empty one: the two violations are rejected exactly when example validation is on, the harmless ones always accepted"
+func verifH_C04_example_direction() {
+	which := verifChoose("which", 4)
+	reqEx, respEx := `{"n":1}`, `{"n":1}`
+	switch which {
+	case 0:
+		reqEx = `{"n":1,"ro":2}` // a request must not carry read-only properties
+	case 1:
+		respEx = `{"n":1,"wo":2}` // a response must not carry write-only properties
+	case 2:
+		reqEx = `{"n":1,"wo":2}`
+	case 3:
+		respEx = `{"n":1,"ro":2}`
+	}
+	schema := `{"type":"object","properties":{"n":{"type":"integer"},"ro":{"type":"integer","readOnly":true},"wo":{"type":"integer","writeOnly":true}}}`
+	text := `{"openapi":"3.0.0","info":{"title":"t","version":"1"},"paths":{"/a":{"post":{"requestBody":{"content":{"application/json":{"schema":` + schema + `,"example":` + reqEx + `}}},` +
+		`"responses":{"200":{"description":"d","content":{"application/json":{"schema":` + schema + `,"example":` + respEx + `}}}}}}}}`
+	doc, err := NewLoader().LoadFromData([]byte(text))
+	if err != nil || doc == nil {
+		verifAssert(false, "C04 example direction: the document loads")
+		return
+	}
+	var opts []ValidationOption
+	set := verifChoose("options", 16)
+	if set&1 != 0 {
+		opts = append(opts, DisableExamplesValidation())
+	}
+	if set&2 != 0 {
+		opts = append(opts, DisableSchemaDefaultsValidation())
+	}
+	if set&4 != 0 {
+		opts = append(opts, DisableSchemaPatternValidation())
+	}
+	if set&8 != 0 {
+		opts = append(opts, EnableSchemaFormatValidation())
+	}
+	verr := doc.Validate(context.Background(), opts...)
+	wantReject := which < 2 && set&1 == 0
+	verifAssert((verr != nil) == wantReject, "C04 example direction: a request example with a read-only property / a response example with a write-only one is rejected exactly when example validation is on, with or without other options")
+	verifReach("end")
+}
